@@ -32,6 +32,10 @@ structure OCtx where
   /-- `ctx.fragments`: name ↦ (type condition, selection set) (last definition wins) -/
   frags : AL (String × Nat × List Sel) := []
   crash : Option String := none
+  /-- `ctx.compared_fields_and_fragment` (proposed_fixes/C05-overlap-fields-fragment-memo.patch): (selection set whose
+      field map it is, fragment name, mutually exclusive) triples already - or being - compared; only the memoised
+      search of `Validate/OverlapMemo.lean` reads and writes it -/
+  ffp : List (Nat × String × Bool) := []
   deriving Inhabited
 
 mutual
